@@ -56,7 +56,7 @@ def _recv_ok_partial(evs):
 
 
 def check(run):
-    return syncfam.run_family(run, "C04", "faults", PFX, sig=_sig, text=_text, assumptions=ASSUME, level="model_checking", witness=True,
+    return syncfam.run_family(run, "C04", "faults", PFX, sig=_sig, text=_text, assumptions=ASSUME, level="fault_enumeration", witness=True,
                               drive_timeout=2400, selftests=[
         ("turn a failed Send after a fault into success", _ok_without_fin),
         ("turn a failed Receive without FIN into success", _recv_ok_partial)])
@@ -67,4 +67,4 @@ def replay(run, path):
     t, _ = run.drive("faults", replay=path)
     tr = syncfam.filter_prefix(run.tlc_trace("SyncTrace", t, shards=1), PFX)
     fails = syncfam.confirm_by_replay_prefixed(run, "faults", "SyncTrace", tr, PFX, _sig, _text, None)
-    return finish(run, "model_checking", fails, assumptions=ASSUME)
+    return finish(run, "fault_enumeration", fails, assumptions=ASSUME)
